@@ -83,7 +83,9 @@ LDup == Language("org.verif.dup",
      Asset("Vm", "Host", <<>>, <<>>) >>,
   << Assoc("Dup", "Host", "host", 1, 1, 0, -1, "srvs", "Srv"),
      Assoc("Dup", "Host", "peerof", 0, 2, 0, 2, "peer", "Host"),
-     Assoc("One", "Host", "h1", 0, 1, 0, 1, "s1", "Srv") >>)
+     Assoc("One", "Host", "h1", 0, 1, 0, 1, "s1", "Srv"),
+     \* the same name once more between the same two types, MIRRORED (Srv on the left)
+     Assoc("Dup", "Srv", "consumers", 0, -1, 0, -1, "consumed", "Host") >>)
 
 (* --- a tiny language for state-machine configs ------------------------------ *)
 LTiny == Language("org.verif.tiny",
